@@ -1,7 +1,8 @@
 """C07 — per-property knobs of ./check (see DESIGN.md §6 C07, notes/C07.md)."""
 THEOREMS_TIED = ["Rustic.Props.C07.uploaded_exactly_added", "Rustic.Props.C07.rebackup_adds_nothing",
                  "Rustic.Props.C07.added_blobs_are_not_indexed", "Rustic.Props.C07.full_backup_adds_every_new_chunk",
-                 "Rustic.Props.C07.edit_reuploads_only_disturbed_chunks", "Rustic.Props.C07.tree_and_data_with_equal_id_both_stored"]
+                 "Rustic.Props.C07.edit_reuploads_only_disturbed_chunks", "Rustic.Props.C07.tree_and_data_with_equal_id_both_stored",
+                 "Rustic.Props.C07.settled_blob_is_never_stored_again", "Rustic.Props.C07.indexed_never_shrinks"]
 
 TRUSTED = [
     "hand-written models lean/Rustic/Model/Archive.lean (archiver pipeline + packer pipeline as a transition system), Model/Tree.lean, Model/Parent.lean, Model/Chunker.lean + Rabin.lean (C06)",
@@ -14,11 +15,11 @@ ASSUMPTIONS = [
     "`once the index has been reloaded`: rebackup_adds_nothing takes any index that contains the first index plus what the first run added",
     "edit locality is inherited from C06 (chunksSpec); the run-time check compares the real chunk sets with the chunker model under edit scripts",
 ]
-RULE = ("ops from harness/src/c07.rs, one splitmix64 PRNG (VERIF_SEED): `hist` = rabin parameter sets (64/64/256 … 512/70/4096; 4096/4096/8192 when a tree-collision file occurs) x initial "
+RULE = ("ops from harness/src/c07.rs, one splitmix64 PRNG (VERIF_SEED): `many` = one packer run with more blobs than the indexer's MAX_COUNT and blobs recurring behind the intermediate index flush; `hist` = rabin parameter sets (64/64/256 … 512/70/4096; 4096/4096/8192 when a tree-collision file occurs) x initial "
         "trees (1-4 files, up to 2 nested dirs, random/periodic/low-entropy contents 0-4.5 kB) x 1-5 follow-up states each made by 0-2 edits (prepend/insert/delete/overwrite/append/truncate at "
         "random offsets, duplicate, rename, remove, new file, file = serialised tree of a directory; zero edits = unchanged source) x forced / parent-based; `pack` = 0-40 adds over 1-12 ids, both "
         "types, pack sizes 1 B … 4 MB. Non-trivial = a run that stored at least one blob or a history with >= 2 runs; distinct by hash of (op, observation).")
-EXPLANATION = ("Theorems: stored keys = keys handed to the packers for every schedule (typed indexer set); added blobs are exactly the ones the index lacks; re-backup after index reload adds "
+EXPLANATION = ("Theorems: stored keys = keys handed to the packers for every schedule (typed indexer set); a blob whose pack is indexed is never stored again by any continuation of the run, and Indexer.indexed never shrinks (the intermediate index-file flush keeps it); added blobs are exactly the ones the index lacks; re-backup after index reload adds "
                "nothing and gives the same tree id; edits re-upload only chunks before the resynchronisation point (from C06); tree and data blob with equal id both stored. Correspondence: per "
                "real backup run the rank of the tree id, data_blobs, tree_blobs, data_added_files and the set of newly indexed blob keys (data by plaintext digest, trees by directory) equal the "
                "model's; oracles: check --read-data clean after every run, packs written = packs indexed, no key stored twice.")
